@@ -3,6 +3,7 @@ import Desert.Bits
 import Desert.Compress
 import Desert.Refs
 import Desert.Own
+import Desert.Evolution
 /-!
 Line-protocol driver: one request per line on stdin, one response per line on stdout.
 Executes the model's definitions (`enc`, `dec` through `runCtx` and `runAbs`, var-ints, …) so the
@@ -155,6 +156,18 @@ def step (env : Env) (line : String) : Env × String :=
       let v := runOwn (pol = "bounded") OwnSt.start as
       (env, match v with | .safe => "safe" | .rejected => "rejected" | .deadRead => "dead-read" | .badProgram => "bad-program")
     | none => (env, "bad-request acts")
+  | some [.atom "hist", .atom wn, .atom rn, v] =>
+    match env.find wn, env.find rn, valOfSexp v with
+    | some (.record dw), some (.record dr), some val =>
+      let exp := match expectedRead dw dr val with
+        | .ok x => s!"ok {showVal x}"
+        | .error e => s!"err {showErr e}"
+      let op := match encodeTop env (.named wn) val with
+        | .ok b => decResponse env (.named rn) b
+        | .err e => s!"encerr {showErr e}"
+        | .panic w => s!"encpanic {w}"
+      (env, s!"{exp} ## {op} ## {if onOneHistory dw dr then "one-history" else "NOT-one-history"}")
+    | _, _, _ => (env, "bad-request hist")
   | some (.atom "src" :: .atom h :: ops) =>
     match bytesOfHex h with
     | some b => (env, String.intercalate ";" (srcOps (Ctx.new b) (ops.filterMap fun | .atom a => some a | _ => none)))
